@@ -304,7 +304,8 @@ def coverage(records: list[dict], extras: list[dict], options: dict) -> dict:
         "faults_armed": armed,
         "faults_fired": fired,
         "kill_sites": kill_sites,
-        "reach_probes": probes,
+        "reach_probes": {k: v for k, v in sorted(probes.items()) if not k.startswith("hit:")},
+        "cache_hits_by_expression": {k[4:]: v for k, v in sorted(probes.items()) if k.startswith("hit:")},
         "call_outcomes": statuses,
         "phases_per_hash_config": cfgs,
         "runs_with_legacy_writer": sum(1 for r in records if r["stats"]["legacy"]),
